@@ -1,6 +1,7 @@
 """C18 — HULC file parsers recover every value that is written in the file."""
 import collections
 import json
+import math
 import os
 from fractions import Fraction
 
@@ -13,7 +14,9 @@ N = {"quick": 400, "thorough": 6000}
 CORRESPONDENCES = ["build_blocks(text) = Bdl.buildBlocks text: accept/reject, and per block type, name, parent and every attribute value "
                    "(numbers as the f32 nearest to the written decimal)",
                    "kyg::parse(text) = Aux.kygParse text: accept/reject, K, every window / wall / thermal-bridge row, insolation factors, gains lines",
-                   "tbl::parse(file) = Aux.tblParse text: accept/reject, every element and space row"]
+                   "tbl::parse(file) = Aux.tblParse text: accept/reject, every element and space row",
+                   "Data::new(text) = BdlData.dataNew text: accept/reject/crash, and every field of every typed element (spaces, walls, windows, "
+                   "materials, layer and window constructions, glazing, frames, schedules, thermal bridges, shades), defaults included"]
 GENERATED_OBLIGATIONS = ["Cte/Gen/BlockTypes.lean regenerated from hulc/src/bdl/blocks.rs (type table, parent classes, line filters, markers)"]
 SPEC_FAMILIES = ()
 RULE = ("the 12 BDL sections of the shipped .ctehexml files, the 56 legacy .cte files and the embedded catalogue as they are; the same files "
@@ -235,7 +238,118 @@ def compare_tbl(case, out):
     return []
 
 
+SCHED_KIND = {"FRACTION": "Fraction", "ON/OFF": "OnOff", "TEMPERATURE": "Temperature"}
+
+
+def tnum_eq(m, i):
+    """model number (exact decimal, 9 digits / 'nonfinite' / None) vs implementation f32 (float / 'inf' / 'nan' / None)"""
+    if m is None or i is None:
+        return m is None and i is None
+    if m == "nonfinite":
+        return isinstance(i, str)
+    if isinstance(i, str):
+        return abs(m) > 3.0e38        # a finite decimal beyond f32 range reads as inf
+    return abs(m - i) <= 2e-6 * max(1.0, abs(m), abs(i)) or (abs(i) < 1e-37 and abs(m) < 1e-37)
+
+
+def deep_eq(m, i, path=""):
+    """first difference between model and implementation values, or None"""
+    if isinstance(m, dict) and isinstance(i, dict):
+        for k in m:
+            if k not in i:
+                continue
+            d = deep_eq(m[k], i[k], path + "." + k)
+            if d:
+                return d
+        return None
+    if isinstance(m, list) and isinstance(i, list):
+        if len(m) != len(i):
+            return f"{path}: {len(i)} vs {len(m)} items"
+        for n, (a, b) in enumerate(zip(m, i)):
+            d = deep_eq(a, b, f"{path}[{n}]")
+            if d:
+                return d
+        return None
+    if isinstance(m, bool) or isinstance(i, bool) or (isinstance(m, str) and m != "nonfinite" and not isinstance(i, (int, float))):
+        return None if m == i else f"{path}: implementation {i!r}, model {m!r}"
+    if isinstance(m, (int, float)) or m == "nonfinite" or isinstance(i, (int, float)):
+        return None if tnum_eq(m, i) else f"{path}: implementation {i!r}, model {m!r}"
+    return None if m == i else f"{path}: implementation {i!r}, model {m!r}"
+
+
+def edge_normal_azimuth(pts, loc):
+    """`Polygon::edge_normal_to_y` in double precision (degrees clockwise from north); 0 for an unknown vertex"""
+    if not (loc and loc.startswith("V")):
+        return 0.0
+    t = loc[1:]
+    if t.startswith("+"):
+        t = t[1:]
+    if not t.isdigit() or not (1 <= int(t) <= len(pts)):
+        return 0.0
+    k = int(t) - 1
+    p1, p2 = pts[k], pts[(k + 1) % len(pts)]
+    if any(isinstance(c, str) for c in p1 + p2):
+        return None
+    n = (p2[1] - p1[1], -(p2[0] - p1[0]))
+    if n == (0.0, 0.0) or n == (0, 0):
+        return None
+    return math.degrees(math.atan2(n[0], n[1])) % 360
+
+
+def compare_data(case, out):
+    imp = case["impl"]
+    fam = CORRESPONDENCES[3]
+    verdict = lambda o: "ok" if "ok" in o else ("panic" if "panic" in o else "err")
+    if verdict(imp) != verdict(out):
+        return [(fam, f"implementation: {verdict(imp)} ({str(imp.get('err', ''))[:80]}), model: {verdict(out)} ({str(out.get('err', out.get('panic', '')))[:80]})")]
+    if "ok" not in imp:
+        _stats["typed_rejected_by_both" if "err" in imp else "typed_crash_by_both"] += 1
+        return []
+    a, b = imp["ok"], out["ok"]
+    for coll in ("materials", "glasses", "frames", "wallcons", "wincons"):
+        ia, ib = {e["key"]: e for e in a[coll]}, {e["key"]: e for e in b[coll]}
+        if sorted(ia) != sorted(ib):
+            return [(fam, f"{coll}: keys differ: only implementation {sorted(set(ia) - set(ib))[:3]}, only model {sorted(set(ib) - set(ia))[:3]}")]
+        for k in ia:
+            d = deep_eq(ib[k], ia[k], f"{coll}[{k}]")
+            if d:
+                return [(fam, d)]
+        _stats["typed_" + coll] += len(ia)
+    spaces = {s["name"]: s for s in a["spaces"]}
+    for coll in ("spaces", "walls", "windows", "thermal_bridges", "shadings", "schedules"):
+        if len(a[coll]) != len(b[coll]):
+            return [(fam, f"{coll}: implementation has {len(a[coll])}, model {len(b[coll])}")]
+        for x, y in zip(a[coll], b[coll]):
+            y = dict(y)
+            if coll == "walls" and y["angle"] == "computed":
+                # computed by the code from the space outline with atan2: compared with the double-precision value
+                sp = spaces.get(x["space"])
+                exp = edge_normal_azimuth(sp["polygon"], x["location"]) if sp else None
+                got = x["angle"]
+                if exp is not None and isinstance(got, (int, float)):
+                    dd = abs((got - exp + 180) % 360 - 180)
+                    if dd > 0.06:     # f32 acos near 0 / 180 degrees is only good to ~sqrt(eps) radians
+                        return [(fam, f"wall {x['name']}: azimuth of the outline edge {x['location']}: implementation {got}, expected {exp:.3f}")]
+                y.pop("angle")
+                x = {k: v for k, v in x.items() if k != "angle"}
+            if coll == "schedules":
+                y["type"] = SCHED_KIND.get(y["type"], y["type"])
+            d = deep_eq(y, x, f"{coll}[{x.get('name')}]")
+            if d:
+                return [(fam, d)]
+        _stats["typed_" + coll] += len(a[coll])
+    for k in ("space_conditions", "system_conditions"):
+        if sorted(set(a[k])) != sorted(set(b[k])):
+            return [(fam, f"{k}: implementation {sorted(a[k])[:4]}, model {sorted(b[k])[:4]}")]
+    if sorted(set(a["meta"])) != sorted(set(types().get(t, t) for t in b["meta"])):
+        return [(fam, f"meta blocks: implementation {a['meta']}, model {b['meta']}")]
+    return []
+
+
 def compare(case, out):
+    if case.get("op") == "bdldata":
+        _stats["family:" + case["kind"]] += 1
+        return compare_data(case, out)
     if case.get("op") == "kyg":
         _stats["family:" + case["kind"]] += 1
         return compare_kyg(case, out)
